@@ -175,31 +175,39 @@ func (set *SortedSet) AddOrUpdate(
 	count := 0
 
 	if strings.EqualFold(inc, "incr") {
-		for _, m := range members {
-			if !set.Contains(m.Value) {
-				// If the member is not contained, add it with the increment as its Score
-				set.members[m.Value] = MemberObject{
-					Value:  m.Value,
-					Score:  m.Score,
-					Exists: true,
-				}
-				// Always add count because this is the addition of a new element
-				count += 1
-				return count, err
+		// In INCR mode the returned count is 1 when the score was set and 0 when
+		// NX, XX, GT or LT prevented it.
+		m := members[0]
+		current := set.members[m.Value]
+		if !current.Exists {
+			if strings.EqualFold(policy, "xx") {
+				return 0, nil
 			}
-			if slices.Contains([]Score{Score(math.Inf(-1)), Score(math.Inf(1))}, set.members[m.Value].Score) {
-				return count, errors.New("cannot increment -inf or +inf")
-			}
+			// If the member is not contained, add it with the increment as its Score
 			set.members[m.Value] = MemberObject{
 				Value:  m.Value,
-				Score:  set.members[m.Value].Score + m.Score,
+				Score:  m.Score,
 				Exists: true,
 			}
-			if strings.EqualFold(ch, "ch") {
-				count += 1
-			}
+			return 1, nil
 		}
-		return count, nil
+		if strings.EqualFold(policy, "nx") {
+			return 0, nil
+		}
+		if slices.Contains([]Score{Score(math.Inf(-1)), Score(math.Inf(1))}, current.Score) {
+			return 0, errors.New("cannot increment -inf or +inf")
+		}
+		score := current.Score + m.Score
+		if (strings.EqualFold(comp, "gt") && !(score > current.Score)) ||
+			(strings.EqualFold(comp, "lt") && !(score < current.Score)) {
+			return 0, nil
+		}
+		set.members[m.Value] = MemberObject{
+			Value:  m.Value,
+			Score:  score,
+			Exists: true,
+		}
+		return 1, nil
 	}
 
 	for _, m := range members {
